@@ -181,6 +181,10 @@ def r07c(repo: Repo, chk: Check, R="R07.c"):
                     return False
                 if ds and all(about_returns(d) for d in ds) and any(not (isinstance(d.value, ast.Constant) and d.value.value is False) for d in ds):
                     ov_base[n] = S(True)  # 'the function has an early return'
+            # the predicate written out inside the condition: any(<... Return ...>)
+            for sub in ast.walk(c):
+                if isinstance(sub, ast.Call) and isinstance(sub.func, ast.Name) and sub.func.id == "any" and "Return" in norm(sub):
+                    ov_base[norm(sub)] = S(True)
             tail = [n for n in names if "tail" in n]
             verdicts = {}
             for tv in (False, True):
